@@ -83,6 +83,44 @@ func vPeerOffer(t *testing.T) SessionDescription {
 	return o
 }
 
+var (
+	vReDir   = regexp.MustCompile(`(?m)^a=(sendrecv|sendonly|recvonly|inactive)\r\n`)
+	vReSsrc  = regexp.MustCompile(`(?m)^a=(ssrc|msid|ssrc-group).*\r\n`)
+	vReGroup = regexp.MustCompile(`(?m)^(a=group:BUNDLE.*)\r\n`)
+)
+
+// vPeerOfferX returns a well-formed offer with two more sections than vPeerOffer, neither of which
+// this endpoint uses: an audio section without a direction attribute and a section of a media type
+// pion does not know (m=text). Both are in the BUNDLE group and carry transport attributes.
+func vPeerOfferX(t *testing.T) SessionDescription {
+	t.Helper()
+	o := vPeerOffer(t)
+	parts := strings.Split(o.SDP, "\r\nm=")
+	audio := ""
+	for _, p := range parts[1:] {
+		if strings.HasPrefix(p, "audio ") {
+			audio = "m=" + p
+			if !strings.HasSuffix(audio, "\r\n") {
+				audio += "\r\n"
+			}
+			break
+		}
+	}
+	if audio == "" {
+		t.Fatal("no audio section in the peer offer")
+	}
+	audio = vReSsrc.ReplaceAllString(vReDir.ReplaceAllString(audio, ""), "")
+	nodir := vReMid.ReplaceAllString(audio, "a=mid:8\r\n")
+	text := strings.Replace(vReMid.ReplaceAllString(audio, "a=mid:9\r\n"), "m=audio ", "m=text ", 1)
+	sdp := o.SDP
+	if !strings.HasSuffix(sdp, "\r\n") {
+		sdp += "\r\n"
+	}
+	sdp = vReGroup.ReplaceAllString(sdp, "$1 8 9\r\n") + nodir + text
+	o.SDP = sdp
+	return o
+}
+
 // vPeerAnswer returns a genuine answer of a throw-away pion endpoint to the given offer, or a
 // retyped genuine offer when there is nothing to answer.
 func vPeerAnswer(t *testing.T, offer *SessionDescription) SessionDescription {
